@@ -4,3 +4,5 @@ pub mod c19;
 pub mod c03;
 pub mod c13;
 pub mod c17;
+pub mod c07;
+pub mod c15;
